@@ -36,11 +36,13 @@ pub struct P {
     pub fault: Option<(&'static str, u64)>,
     /// the vAMM reads its oracle from the repository's own price feed instead of the mock
     pub real_feed: bool,
+    /// the second trader trades the SAME way as alice (alice ends up in profit)
+    pub with_trend: bool,
 }
 
 impl P {
     pub fn new(prop: &'static str, side: Side, seed: u64) -> P {
-        P { prop, native: false, dec: 9, fees: false, side, wide: false, seed, partial_sym: false, full_prefix: false, concrete_prefix: false, sym_lev: false, sym_lim: false, sym_ratios: false, bystanders: prop == "C10", sym_oracle: false, sym_counter: false, fault: None, real_feed: false }
+        P { prop, native: false, dec: 9, fees: false, side, wide: false, seed, partial_sym: false, full_prefix: false, concrete_prefix: false, sym_lev: false, sym_lim: false, sym_ratios: false, bystanders: prop == "C10", sym_oracle: false, sym_counter: false, fault: None, real_feed: false, with_trend: false }
     }
     pub fn native(mut self) -> P {
         self.native = true;
@@ -138,6 +140,10 @@ impl P {
         self.fault = Some((site, n));
         self
     }
+    pub fn trend(mut self) -> P {
+        self.with_trend = true;
+        self
+    }
     pub fn real_feed(mut self) -> P {
         self.real_feed = true;
         self
@@ -168,6 +174,7 @@ impl P {
             + if self.sym_oracle { ".oracle" } else { "" }
             + if self.sym_counter { ".counter" } else { "" }
             + if self.real_feed { ".realfeed" } else { "" }
+            + if self.with_trend { ".trend" } else { "" }
     }
     fn prefix_mode(&self) {
         symrt::set_full(self.full_prefix);
@@ -348,7 +355,8 @@ pub fn t_fund(p: P, then: u8) -> impl Fn() {
         r.w.next_block(15);
         let m2 = p.pre_amount("m2", d, 10 + (p.seed % 5) as u128);
         let f = funds_for(&r, &p, m2, l1);
-        let t = r.step(Op::Open { who: BOB, side: opp(&p.side), margin: m2, lev: l1, limit: Uint128::zero(), funds: f });
+        let bside = if p.with_trend { p.side.clone() } else { opp(&p.side) };
+        let t = r.step(Op::Open { who: BOB, side: bside, margin: m2, lev: l1, limit: Uint128::zero(), funds: f });
         if !t.tx.ok {
             return;
         }
@@ -421,6 +429,11 @@ pub fn t_close_regime(p: P, units: u128) -> impl Fn() {
 /// T-fund-pclose: positions, a funding settlement with a symbolic oracle price, then alice closes
 /// under a fluctuation limit (partial close), the limit is lifted and she closes the rest
 pub fn t_fund_pclose(p: P) -> impl Fn() {
+    t_fund_pclose_liq(p, false)
+}
+
+/// as T-fund-pclose, with a liquidation attempt by a third party after the partial close
+pub fn t_fund_pclose_liq(p: P, then_liq: bool) -> impl Fn() {
     move || {
         let mut cfg = p.cfg();
         let d = cfg.d();
@@ -432,7 +445,8 @@ pub fn t_fund_pclose(p: P) -> impl Fn() {
         assert!(r.step(Op::Open { who: ALICE, side: p.side.clone(), margin: m1, lev: l1, limit: Uint128::zero(), funds: None }).tx.ok);
         r.w.next_block(15);
         let m2 = Uint128::new((10 + (p.seed % 5) as u128) * d);
-        assert!(r.step(Op::Open { who: BOB, side: opp(&p.side), margin: m2, lev: l1, limit: Uint128::zero(), funds: None }).tx.ok);
+        let bside = if p.with_trend { p.side.clone() } else { opp(&p.side) };
+        assert!(r.step(Op::Open { who: BOB, side: bside, margin: m2, lev: l1, limit: Uint128::zero(), funds: None }).tx.ok);
         r.w.next_block(86_400);
         let price = crate::sx::var("oracle", 1, 1_000 * d, (if p.seed % 2 == 0 { 9 } else { 11 }) * d);
         let now = r.w.now();
@@ -449,8 +463,12 @@ pub fn t_fund_pclose(p: P) -> impl Fn() {
         if !t.tx.ok {
             return;
         }
-        r.w.next_block(15);
+        r.w.next_block(1000);
         assert!(r.w.update_vamm(0, None, None, None, None, Some(Uint128::zero()), None).ok);
+        if then_liq {
+            r.step(Op::Liquidate { by: LIQ, trader: ALICE, limit: Uint128::zero() });
+            r.w.next_block(15);
+        }
         r.step(Op::Close { who: ALICE, limit: Uint128::zero() });
     }
 }
@@ -564,5 +582,195 @@ pub fn t_liq_profitable(p: P) -> impl Fn() {
         r.w.next_block(1000);
         symrt::set_full(true);
         r.step(Op::Liquidate { by: LIQ, trader: ALICE, limit: Uint128::zero() });
+    }
+}
+
+// ------------------------------------------------------------------------------------------
+// generated histories
+// ------------------------------------------------------------------------------------------
+struct Rng(u64);
+impl Rng {
+    fn next(&mut self) -> u64 {
+        // splitmix64
+        self.0 = self.0.wrapping_add(0x9E3779B97F4A7C15);
+        let mut z = self.0;
+        z = (z ^ (z >> 30)).wrapping_mul(0xBF58476D1CE4E5B9);
+        z = (z ^ (z >> 27)).wrapping_mul(0x94D049BB133111EB);
+        z ^ (z >> 31)
+    }
+    fn pick<T: Copy>(&mut self, xs: &[T]) -> T {
+        xs[(self.next() % xs.len() as u64) as usize]
+    }
+    fn chance(&mut self, pct: u64) -> bool {
+        self.next() % 100 < pct
+    }
+}
+
+/// T-gen: a pseudo-random history (operation kinds, traders, sides, sizes, leverages, block gaps,
+/// funding settlements with oracle moves, liquidation attempts) determined by (seed, idx); all
+/// amounts concrete except the last operation's, which is symbolic and explored exhaustively.
+/// Every step runs under the property's monitors / step oracle.
+pub fn t_gen(p: P, idx: u64) -> impl Fn() {
+    move || {
+        let mut g = Rng(p.seed.wrapping_mul(1_000_003).wrapping_add(idx).wrapping_mul(0x2545F4914F6CDD1D) ^ 0xC0FFEE);
+        let mut cfg = p.cfg();
+        let d = cfg.d();
+        cfg.init_ratio = Uint128::new(d / 10);
+        cfg.maint_ratio = Uint128::new(d / 20);
+        cfg.partial_ratio = Uint128::new(g.pick(&[0, 0, d / 4, d / 2, d]));
+        cfg.liq_fee = Uint128::new(g.pick(&[d / 100, d / 20, d / 20]));
+        if g.chance(35) && !p.fees {
+            cfg.toll = Uint128::new(d / 100);
+            cfg.spread = Uint128::new(d / 50);
+        }
+        let mut r = p.run_cfg(cfg);
+        symrt::set_full(false);
+        let traders = [ALICE, BOB, CAROL];
+        let n = 4 + (g.next() % 4) as usize;
+        let mut desc = String::new();
+        for i in 0..n {
+            let last = i + 1 == n;
+            if last {
+                symrt::set_full(true);
+            }
+            let who = g.pick(&traders);
+            let k = g.next() % 100;
+            let op = if k < 42 || i == 0 {
+                let side = if g.chance(50) { Side::Buy } else { Side::Sell };
+                let units = g.pick(&[1u128, 3, 5, 10, 20, 25, 40, 60]);
+                let lev = Uint128::new(g.pick(&[1u128, 2, 2, 5, 10]) * d);
+                let margin = if last { amount("gm", d, false, units) } else { Uint128::new(units * d) };
+                let has = r.w.position(0, who).map(|x| !x.size.value.is_zero()).unwrap_or(false);
+                let funds = if p.native && !has { Some(native_open_funds(&r.w, margin, lev)) } else { None };
+                Op::Open { who, side, margin, lev, limit: Uint128::zero(), funds }
+            } else if k < 54 {
+                Op::Close { who, limit: Uint128::zero() }
+            } else if k < 60 {
+                let a = if last { amount("gd", d, false, 5) } else { Uint128::new(g.pick(&[1u128, 5, 30]) * d) };
+                Op::Deposit { who, amount: a, funds: if p.native { Some(a) } else { None } }
+            } else if k < 70 {
+                let a = if last { amount("gw", d, false, 2) } else { Uint128::new(g.pick(&[1u128, 2, 10]) * d) };
+                Op::Withdraw { who, amount: a }
+            } else if k < 84 {
+                Op::Liquidate { by: g.pick(&[LIQ, EVE]), trader: who, limit: Uint128::zero() }
+            } else {
+                // a funding settlement: a day passes, the oracle moves
+                r.w.next_block(86_400);
+                let price = Uint128::new(g.pick(&[3u128, 8, 10, 12, 30]) * d);
+                let now = r.w.now();
+                r.w.set_oracle(price, now);
+                Op::PayFunding { by: EVE }
+            };
+            desc += &format!("{}{} ", op.name(), if last { "*" } else { "" });
+            r.step(op);
+            if g.chance(75) {
+                r.w.next_block(g.pick(&[15u64, 15, 900, 1000]));
+            }
+        }
+        symrt::log_event(format!("history: {}", desc));
+    }
+}
+
+/// T-opp-after-move: alice opens, 15 minutes pass, bob moves the price (spot and the 15-minute
+/// TWAP now differ), alice sends an opposite order of symbolic size, then both close
+pub fn t_opp_after_move(p: P, bob_same: bool) -> impl Fn() {
+    move || {
+        let mut r = p.run();
+        let d = r.w.d;
+        p.prefix_mode();
+        let l = Uint128::new(2 * d);
+        let m1 = Uint128::new((80 + (p.seed % 40) as u128) * d);
+        let f = funds_for(&r, &p, m1, l);
+        if !r.step(Op::Open { who: ALICE, side: p.side.clone(), margin: m1, lev: l, limit: Uint128::zero(), funds: f }).tx.ok {
+            return;
+        }
+        r.w.next_block(900);
+        let m2 = Uint128::new((20 + (p.seed % 15) as u128) * d);
+        let bs = if bob_same { p.side.clone() } else { opp(&p.side) };
+        let f = funds_for(&r, &p, m2, l);
+        if !r.step(Op::Open { who: BOB, side: bs, margin: m2, lev: l, limit: Uint128::zero(), funds: f }).tx.ok {
+            return;
+        }
+        r.w.next_block(15);
+        symrt::set_full(true);
+        let m3 = amount("m3", d, false, 90);
+        r.step(Op::Open { who: ALICE, side: opp(&p.side), margin: m3, lev: l, limit: Uint128::zero(), funds: None });
+        r.w.next_block(15);
+        r.step(Op::Close { who: ALICE, limit: Uint128::zero() });
+        r.w.next_block(15);
+        r.step(Op::Close { who: BOB, limit: Uint128::zero() });
+    }
+}
+
+/// T-liq2: alice is liquidated partially by one liquidator, then again by a different one in a
+/// later block (`same_block`: in the same block)
+pub fn t_liq2(p: P, same_block: bool) -> impl Fn() {
+    move || {
+        let mut cfg = p.cfg();
+        let d = cfg.d();
+        cfg.init_ratio = Uint128::new(d / 10);
+        cfg.partial_ratio = Uint128::new(d / 4);
+        cfg.liq_fee = ratio("liq_fee", d, d / 100);
+        let mut r = p.run_cfg(cfg);
+        p.prefix_mode();
+        let l = Uint128::new(10 * d);
+        let m1 = Uint128::new(25 * d);
+        let f = funds_for(&r, &p, m1, l);
+        if !r.step(Op::Open { who: ALICE, side: p.side.clone(), margin: m1, lev: l, limit: Uint128::zero(), funds: f }).tx.ok {
+            return;
+        }
+        r.w.next_block(15);
+        let m2 = Uint128::new(5 * d);
+        let f = funds_for(&r, &p, m2, l);
+        if !r.step(Op::Open { who: BOB, side: opp(&p.side), margin: m2, lev: l, limit: Uint128::zero(), funds: f }).tx.ok {
+            return;
+        }
+        r.w.next_block(1000);
+        // the owner raises the margin requirements after the positions were opened: a high
+        // (symbolic) maintenance ratio keeps alice liquidatable after the first partial liquidation
+        let maint = ratio("maint", d, d / 2);
+        assert!(r.w.update_engine(Some(Uint128::new(d)), Some(maint), None, None).ok);
+        symrt::set_full(true);
+        r.step(Op::Liquidate { by: LIQ, trader: ALICE, limit: Uint128::zero() });
+        if !same_block {
+            r.w.next_block(15);
+        }
+        r.step(Op::Liquidate { by: EVE, trader: ALICE, limit: Uint128::zero() });
+        r.w.next_block(15);
+        r.step(Op::Liquidate { by: CAROL, trader: ALICE, limit: Uint128::zero() });
+    }
+}
+
+/// T-liq-two-same-block: two traders deep under water; the liquidator opens a position of its own
+/// and liquidates both in that same block
+pub fn t_liq_two_same_block(p: P) -> impl Fn() {
+    move || {
+        let mut cfg = p.cfg();
+        let d = cfg.d();
+        cfg.init_ratio = Uint128::new(d / 10);
+        cfg.liq_fee = ratio("liq_fee", d, d / 20);
+        let mut r = p.run_cfg(cfg);
+        p.prefix_mode();
+        let l = Uint128::new(10 * d);
+        for who in [ALICE, BOB] {
+            let m = Uint128::new(20 * d);
+            let f = funds_for(&r, &p, m, l);
+            if !r.step(Op::Open { who, side: p.side.clone(), margin: m, lev: l, limit: Uint128::zero(), funds: f }).tx.ok {
+                return;
+            }
+            r.w.next_block(15);
+        }
+        let m = Uint128::new(60 * d);
+        let f = funds_for(&r, &p, m, l);
+        if !r.step(Op::Open { who: CAROL, side: opp(&p.side), margin: m, lev: l, limit: Uint128::zero(), funds: f }).tx.ok {
+            return;
+        }
+        r.w.next_block(1000);
+        symrt::set_full(true);
+        let ml = amount("ml", d, false, 1);
+        let f = funds_for(&r, &p, ml, Uint128::new(d));
+        r.step(Op::Open { who: LIQ, side: opp(&p.side), margin: ml, lev: Uint128::new(d), limit: Uint128::zero(), funds: f });
+        r.step(Op::Liquidate { by: LIQ, trader: ALICE, limit: Uint128::zero() });
+        r.step(Op::Liquidate { by: LIQ, trader: BOB, limit: Uint128::zero() });
     }
 }
